@@ -3,11 +3,13 @@
    reader model's result equal that closed form. Output: `plain=<0|1|-> closed=<ok|differs|-> files=<n>`. -/
 import ZeepVerif.Lemmas.ReadDecide
 import ZeepVerif.Lemmas.ReadDecideX
+import ZeepVerif.Lemmas.ReadDecideG
+import ZeepVerif.Lemmas.ReadGraph
 import ZeepVerif.Driver.Util
 
 namespace ZeepVerif.Driver.ReadDrv
 open ZeepVerif ZeepVerif.Model ZeepVerif.Lemmas.ReadFile ZeepVerif.Lemmas.ReadDecide ZeepVerif.Lemmas.ReadComp
-open ZeepVerif.Lemmas.ReadExt ZeepVerif.Lemmas.ReadDecideX
+open ZeepVerif.Lemmas.ReadExt ZeepVerif.Lemmas.ReadDecideX ZeepVerif.Lemmas.ReadImport ZeepVerif.Lemmas.ReadDecideG ZeepVerif.Lemmas.ReadGraph
 
 def evalOne (files : List XFile) (start : String) : String :=
   match files with
@@ -29,7 +31,19 @@ def evalOne (files : List XFile) (start : String) : String :=
         | .error e => "plain=1 closed=differs:" ++ e.name ++ " files=1"
       | _ => "plain=1 closed=differs files=1"
     else "plain=0 closed=- files=1"
-  | _ => s!"plain=- closed=- files={files.length}"
+  | _ =>
+    -- several registered files: the pure reader for import graphs (`c11_graph_read`), nesting depth up to 40
+    match readFileG (fileTable files) 40 start [] [] { processed := [] } with
+    | some (expected, _) =>
+      let leaf := if startFileB files start then " one-level" else ""
+      match readXml files start with
+      | .ok got =>
+        if got.nodes == expected.nodes && got.lookup == expected.lookup && got.namespaces == expected.namespaces &&
+           got.targetNamespaces == expected.targetNamespaces && got.current == expected.current then
+          s!"plain=1 closed=ok files={files.length} imports{leaf}"
+        else s!"plain=1 closed=differs files={files.length} imports"
+      | .error e => s!"plain=1 closed=differs:{e.name} files={files.length} imports"
+    | none => s!"plain=0 closed=- files={files.length}"
 
 def main : IO UInt32 := do
   forLines (← IO.getStdin) fun line => do
